@@ -627,6 +627,8 @@ class Grid(object):
         _counter[0] += 1
         boot.urandom.reset(boot.SEED, b"grid")      # same random stream for every execution
         _serial[0] = 0
+        import random as _random
+        _random.seed(boot.SEED)                      # BackoffAgent's retry delays (random.normalvariate)
         self.base = "/dev/shm/vt-%d/g%d" % (os.getpid(), _counter[0])
         if os.path.exists(self.base):
             shutil.rmtree(self.base)
